@@ -152,7 +152,7 @@ def build(model, data):
     if data['function'].split('@')[0].startswith('pool.LaxBoundedSemaphore') and 'self' in env:
         import threading
         s = env['self']
-        if not hasattr(s, '_cond') or isinstance(s._cond, Stub):
+        if not isinstance(getattr(s, '_cond', None), type(threading.Condition())):
             s._cond = threading.Condition(threading.Lock())
     return {'call': lambda: fn(**kwargs), 'env': env}
 
